@@ -28,10 +28,10 @@ fn uptime(u: &huginn_net_tcp::UptimeOutput) -> Value {
 }
 pub fn result_to(r: &TcpAnalysisResult) -> Value {
     json!({
-        "syn": r.syn.as_ref().map(|s| json!({"obs": tcp_obs_to(&s.sig.matching), "text": s.sig.matching.to_string(), "src": ipport(&s.source), "dst": ipport(&s.destination),
+        "syn": r.syn.as_ref().map(|s| json!({"obs": tcp_obs_to(&s.sig.matching), "text": s.sig.matching.to_string(), "sigtext": s.sig.to_string(), "line": s.to_string(), "src": ipport(&s.source), "dst": ipport(&s.destination),
                                               "os": s.os_matched.os.as_ref().map(|o| json!({"name": o.name, "family": o.family, "variant": o.variant, "kind": o.kind.to_string()})),
                                               "q": quality(&s.os_matched.quality)})),
-        "syn_ack": r.syn_ack.as_ref().map(|s| json!({"obs": tcp_obs_to(&s.sig.matching), "text": s.sig.matching.to_string(), "src": ipport(&s.source), "dst": ipport(&s.destination),
+        "syn_ack": r.syn_ack.as_ref().map(|s| json!({"obs": tcp_obs_to(&s.sig.matching), "text": s.sig.matching.to_string(), "sigtext": s.sig.to_string(), "line": s.to_string(), "src": ipport(&s.source), "dst": ipport(&s.destination),
                                               "os": s.os_matched.os.as_ref().map(|o| json!({"name": o.name, "family": o.family, "variant": o.variant, "kind": o.kind.to_string()})),
                                               "q": quality(&s.os_matched.quality)})),
         "mtu": r.mtu.as_ref().map(|m| json!({"mtu": m.mtu, "link": m.link.link, "q": quality(&m.link.quality), "src": ipport(&m.source), "dst": ipport(&m.destination)})),
